@@ -29,7 +29,7 @@ TARGETS = [_M + m for m in (
 BOUNDS = {
     'quick': {'items': '0..7 with _COMPACTION_FACTOR=2; 16..18 with production constants', 'removals_before_op': '0..3 at symbolic positions',
               'operations_after_pre_state': 1, 'slices_checked': 'all i,j in -n-2..n+2|None, k in None,1,2,3',
-              'set_operands': '0..2 operands, each any subset of a 4-item universe (2 present, 2 absent), kinds set/frozenset/list/tuple/IndexedSet'},
+              'set_operands': '0..2 operands, each any subset of a 4-item universe (2 present, 2 absent), kinds set/frozenset/list/tuple/IndexedSet; list/tuple operands in either relative order and with repeated items (content twice, one item three times)'},
     'thorough': {'items': '0..8 (factor 2), 16..26 (production)', 'removals_before_op': '0..4', 'operations_after_pre_state': 2},
 }
 ASSUMPTIONS = ['items are hashable with consistent ==/hash', 'index and slice arguments valid for a list of the same length',
@@ -262,7 +262,7 @@ def ordered_union(ref, others):
     return out
 
 
-def _set_body(n, rem, name, nops, masks, kinds, rev=0):
+def _set_body(n, rem, name, nops, masks, kinds, rev=0, dup=0):
     s, ref, cl = build(n, rem, 0, 1)
     if cl:
         return fail(cl)
@@ -274,7 +274,12 @@ def _set_body(n, rem, name, nops, masks, kinds, rev=0):
     ops_l = []      # operand contents in a definite order
     for mask in masks[:nops]:
         order = (3, 1, 2, 0) if rev else (0, 3, 1, 2)     # ordered operands list common items in either relative order
-        ops_l.append([uni[i] for i in order if mask & (1 << i)])
+        l = [uni[i] for i in order if mask & (1 << i)]
+        if dup == 1 and l:
+            l = l + l                                     # sequence operands may repeat items: whole content twice ...
+        elif dup == 2 and l:
+            l = [l[0]] * 3 + l[1:]                        # ... or one item three times in a row
+        ops_l.append(l)
     operands = [KINDS[kinds[i]](ops_l[i]) for i in range(nops)]
     ordered = [list(o) for o in operands]            # iteration order of each operand as passed
     before_ops = [list(o) for o in operands]
@@ -401,7 +406,7 @@ def _set_body(n, rem, name, nops, masks, kinds, rev=0):
     return done(True, kind='two_operands' if nops == 2 else 'operands_%d' % nops, op=name, n=n, nops=nops)
 
 
-def iset_set(n: int, nrem: int, r0: int, op: int, nops: int, m0: int, m1: int, k0: int, k1: int, rev: int) -> bool:
+def iset_set(n: int, nrem: int, r0: int, op: int, nops: int, m0: int, m1: int, k0: int, k1: int, rev: int, dup: int) -> bool:
     """
     pre: 0 <= n <= 5 and 0 <= nrem <= 1 and 0 <= nops <= 2 and 0 <= m0 <= 15 and 0 <= m1 <= 15 and 0 <= k0 <= 4 and 0 <= k1 <= 4
     post: _
@@ -419,11 +424,12 @@ def iset_set(n: int, nrem: int, r0: int, op: int, nops: int, m0: int, m1: int, k
     k0 = pin('k0', k0, 0, 4)
     kinds = [k0, (k0 + 2) % 5]
     rev = cz(rev, 0, 1) if (k0 >= 2 and nops >= 1 and bin(masks[0]).count('1') >= 2) else 0
+    dup = pin('dup', dup, 0, 2) if (k0 in (2, 3) and nops >= 1) else 0      # list/tuple operands: no repeats / content twice / first item three times
     with notrace():
         old = setutils._COMPACTION_FACTOR
         try:
             setutils._COMPACTION_FACTOR = 2
-            return _set_body(n, rem, SET_OPS[op], nops, masks, kinds, rev)
+            return _set_body(n, rem, SET_OPS[op], nops, masks, kinds, rev, dup)
         finally:
             setutils._COMPACTION_FACTOR = old
 
@@ -449,8 +455,14 @@ def obligations(tier):
     for op, name in enumerate(SET_OPS):
         for k0 in opk.get(name, range(5)):
             if name in multi:
-                obs.append(Ob('iset_set', timeout=T, pins={'op': op, 'k0': k0, 'nmin': 2, 'nmax': 3 if q else 5, 'opsmin': 0, 'opsmax': 2},
-                              need_kinds=('two_operands',)))
+                for dup in ((0, 1, 2) if k0 in (2, 3) else (None,)):
+                    pins = {'op': op, 'k0': k0, 'nmin': 2, 'nmax': 3 if q else 5, 'opsmin': 0, 'opsmax': 2}
+                    if dup is not None:
+                        pins['dup'] = dup
+                        if dup:
+                            pins['opsmin'] = 1
+                            pins['nmax'] = 2 if q else 3
+                    obs.append(Ob('iset_set', timeout=T, pins=pins, need_kinds=('two_operands',)))
             else:
                 obs.append(Ob('iset_set', timeout=T, pins={'op': op, 'k0': k0, 'nmin': 0, 'nmax': 3 if q else 5, 'opsmin': 1, 'opsmax': 1}))
     return obs
